@@ -701,6 +701,9 @@ func c15Exec(line string) string {
 	if len(f) < 2 {
 		return "bad-case"
 	}
+	if strings.HasPrefix(f[0], "t") { // three-level chain A -> C -> G (c15_depth.go)
+		return c15ChainExec(f)
+	}
 	kind, shape, ok := c15ParseKind(f[0])
 	if !ok || (!(len(f) == 2 && (kind == "h" || kind == "g")) && !(len(f) == 3 && kind == "k")) {
 		return "bad-case"
@@ -1053,6 +1056,10 @@ func c15Gen(tier string, seed uint64, out *bufio.Writer) {
 		if line == "" {
 			continue
 		}
+		if line[0] == 't' { // three-level chain cases carry their own configuration token
+			fmt.Fprintln(out, line)
+			continue
+		}
 		sh := c15DefaultShape
 		if i < 4*len(c15Shapes) {
 			sh = c15Shapes[i%len(c15Shapes)]
@@ -1115,4 +1122,6 @@ func c15GenCases(tier string, seed uint64, out *bufio.Writer) {
 	}
 	// paged walks (compiled queries with skip / limit handed to IterateIds / IterateValidIds / QueryIds)
 	c15GenPagedCases(tier, r, out)
+	// three-level chains A -> C -> G (appended last: the earlier streams are unchanged)
+	c15GenChainCases(tier, r, out)
 }
